@@ -152,9 +152,13 @@ extern ssize_t mpt_encode_cobs(MPT_STRUCT(encode_state) *info, const struct iove
 			if (++code == MPT_COBS_MAXLEN) {
 				/* unable to save continuation state */
 				if (!left) {
-					--code; --dst;
+					--code; --dst; ++left;
 					dst[-code] = code;
 					++len; --src;
+					/* no progress without more space */
+					if (len == base->iov_len) {
+						return MPT_ERROR(MissingBuffer);
+					}
 					break;
 				}
 				/* end of code block */
